@@ -286,7 +286,14 @@ def _c16_trace(inst):
             elif u < 0.58 and npt >= 2:
                 k1, k2 = [int(v) for v in rng.choice(npt, size=2, replace=False)]
                 M.swap_points(k1, k2)
-            elif u < 0.64 and npt == M.num_pts and M.num_pts < cap + 1:
+            elif u < 0.66 and inst.get("resample", True):
+                # a further (noisy) sample of the most recently evaluated point: unequal sample counts across the point set
+                ks = [k for k in range(npt) if int(M.eval_num[k]) == D.nx and M.nsamples[k] < 4]
+                if ks:
+                    xk = M.xbase + M.points[ks[0], :]
+                    r = D.evaluate(xk, resid_at(xk) + 0.01 * rng.normal(size=m), newpoint=False)
+                    M.add_new_sample(ks[0], r)
+            elif u < 0.72 and npt == M.num_pts and M.num_pts < cap + 1:
                 xs = M.xopt() + rng.normal(size=n) * spread
                 r = D.evaluate(M.xbase + xs, resid_at(M.xbase + xs))
                 M.add_new_point(xs, r, D.nx)
@@ -298,6 +305,10 @@ def _c16_trace(inst):
                     pass
                 if ok:
                     identities(D, M, ("interp", "lagrange", "qr"))
+                else:
+                    # the fit itself must succeed on a point set whose (independently computed) conditioning makes the identities evaluable
+                    tol, cond, sp = _tol(M)
+                    D.run.emit("Ident", kind="fit_succeeds", ok=not bool(tol < 1e-3), evaluable=bool(tol < 1e-3), err=1.0, bound=float(tol))
             if rng.random() < 0.25 and M.npt() >= 2:
                 # a Lagrange query between mutations (uses the cached factorisation if it is declared current)
                 try:
